@@ -104,7 +104,13 @@ func fieldcontract_Methods_Marshal(in protoiface.MarshalInput) (out protoiface.M
 
 // The reflection marshaler: body not verified here (protoreflect); it appends.
 //
-// @ trusted
+// Under Deterministic the fields are ranged in the legacy (total) field order, never in map order (C05).
+//
+// @ props C05
+// @ mode int
+// @ nopanic
+// @ guard-errors
+// @ callsite order.RangeFields: imp(o.Deterministic, identical(fieldOrder, order.LegacyFieldOrder))
 func contract_MarshalOptions_marshalMessageSlow(o MarshalOptions, b []byte, m protoreflect.Message) (r []byte, err error) {
 	modifiesAll()
 	ensuresTrusted(imp(err == nil, len(r) >= len(b)))
@@ -177,5 +183,16 @@ func contract_finishSpeculativeLength(b []byte, pos int) (r []byte) {
 	ensures(forallIn(r, pos+protowire.SpecVlen(uint64(len(b)-pos-1)), len(r), func(k int, e byte) bool {
 		return e == old(b[k-protowire.SpecVlen(uint64(len(b)-pos-1))+1])
 	}))
+	return
+}
+
+// Under Deterministic map entries are ranged in the generic key order (C05).
+//
+// @ props C05
+// @ mode int
+// @ nopanic
+// @ callsite order.RangeEntries: imp(o.Deterministic, identical(keyOrder, order.GenericKeyOrder))
+func contract_MarshalOptions_marshalMap(o MarshalOptions, b []byte, fd protoreflect.FieldDescriptor, mapv protoreflect.Map) (r []byte, err error) {
+	modifiesAll()
 	return
 }
